@@ -722,6 +722,11 @@ func (x *Exec) callContract(call *ast.CallExpr, c *Contract, obj *types.Func, fi
 		}
 		if i == 0 && c.Yields != "" {
 			rv.Proto = x.W.protoOf(c.Yields)
+			x.wrapCfail("subjects of "+c.Key, func() {
+				for _, e := range c.YieldsArgs {
+					rv.Subj = append(rv.Subj, env.tr(e))
+				}
+			})
 		}
 		if p, ok := c.ParamProto[fmt.Sprintf("result%d", i)]; ok {
 			rv.Proto = x.W.protoOf(p)
